@@ -31,7 +31,7 @@ func init() {
 		Profile: Profile{Prop: "C11", ForceRef: true, NoExp: true, Keys: [2]int{1, 4}},
 		OpW:     zeroExcept(map[string]int{"load": 30, "get": 8, "set": 8, "invalidate": 4, "advance": 16, "refresh": 5, "setrefreshable": 3}),
 		Tasks:   [2]int{2, 4}, OpsPer: [2]int{4, 16}, Prefill: [2]int{1, 4},
-		Executors: []string{"default", "queued"}, Lin: true,
+		Executors: []string{"default", "queued"}, Lin: true, AllowStall: true, StallP: 5,
 		NonTrivial: func(o *ConcOutcome) bool { return o.Probes["refresh-triggering-gets"] > 0 },
 	}
 	Props["C11"].Engines = append(Props["C11"].Engines, &concEngine{opts: c11})
@@ -60,7 +60,7 @@ func init() {
 	c03 := &ConcOpts{
 		Profile: Profile{Prop: "C03", ForceExp: true, NoCustomExp: true, NoRef: true, Keys: [2]int{1, 4}},
 		OpW: zeroExcept(map[string]int{"set": 14, "setifabsent": 8, "get": 14, "getentry": 3, "getquiet": 3, "compute": 8, "computeifabsent": 5, "computeifpresent": 5,
-			"invalidate": 6, "setexpires": 4, "cleanup": 2}),
+			"invalidate": 6, "setexpires": 4, "cleanup": 2, "all": 3, "keys": 2, "values": 2, "hottest": 2, "coldest": 2}),
 		Tasks: [2]int{2, 4}, OpsPer: [2]int{4, 18}, Prefill: [2]int{0, 4},
 		Executors: []string{"default", "sync", "queued"}, Rounds: true,
 		NonTrivial: func(o *ConcOutcome) bool { return o.Overlaps > 0 && o.Probes["barrier-clock-advances"] > 0 },
@@ -149,6 +149,7 @@ func init() {
 	c20ref.OpW = zeroExcept(map[string]int{"set": 10, "get": 12, "getentry": 3, "load": 16, "bulkget": 5, "compute": 4, "computeifabsent": 2, "computeifpresent": 2,
 		"invalidate": 6, "getquiet": 2, "advance": 14, "refresh": 4, "bulkrefresh": 2, "setrefreshable": 2})
 	c20ref.Executors = []string{"default", "queued", "queued"}
+	c20ref.AllowStall, c20ref.StallP = true, 6
 	c20ref.NonTrivial = func(o *ConcOutcome) bool { return o.Switches > 4 && o.Probes["loader-calls"] > 0 }
 	Props["C20"].Engines = append(Props["C20"].Engines, &concEngine{opts: &c20ref})
 	c08exp := *Props["C08"].Conc
@@ -156,4 +157,23 @@ func init() {
 	c08exp.OpW = zeroExcept(map[string]int{"load": 28, "bulkget": 10, "refresh": 5, "bulkrefresh": 3, "set": 6, "invalidate": 5, "get": 5, "compute": 2, "advance": 10, "cleanup": 3})
 	c08exp.Ticker, c08exp.AimAdvance = true, true
 	Props["C08"].Engines = append(Props["C08"].Engines, &concEngine{opts: &c08exp})
+	// C15 (cache level): All / Keys / Values traverse the key index while other tasks insert, update,
+	// remove and the table grows or shrinks; weakly consistent iteration rules of conc_iter.go.
+	// Without expiry, and with a write- or access-reset lifetime (clock moving only at barriers).
+	c15ops := zeroExcept(map[string]int{"set": 16, "setifabsent": 4, "compute": 6, "computeifabsent": 3, "computeifpresent": 3, "invalidate": 10, "get": 4,
+		"all": 8, "keys": 6, "values": 4, "hottest": 2, "coldest": 2, "invalidateall": 1})
+	c15 := &ConcOpts{
+		Profile: Profile{Prop: "C15", NoExp: true, NoRef: true, Keys: [2]int{2, 10}},
+		OpW:     c15ops, Tasks: [2]int{2, 4}, OpsPer: [2]int{3, 14}, Prefill: [2]int{0, 8},
+		Executors: []string{"default", "sync", "queued"}, Resize: true,
+		NonTrivial: func(o *ConcOutcome) bool {
+			return o.Switches > 2 && o.Probes["conc-iter:all"]+o.Probes["conc-iter:keys"]+o.Probes["conc-iter:values"] > 0
+		},
+	}
+	Props["C15"].Engines = append(Props["C15"].Engines, &concEngine{opts: c15})
+	Props["C15"].Conc = c15
+	c15exp := *c15
+	c15exp.Profile = Profile{Prop: "C15", ForceExp: true, NoCustomExp: true, NoRef: true, Keys: [2]int{2, 8}}
+	c15exp.Rounds, c15exp.Resize = true, false
+	Props["C15"].Engines = append(Props["C15"].Engines, &concEngine{opts: &c15exp})
 }
